@@ -316,6 +316,11 @@ class IrcUser(object):
         global users
         assert isinstance(network, minisix.string_types)
         assert ircutils.isNick(nick), 'got %s' % nick
+        if network.split() != [network] or nick.split() != [nick]:
+            # The nicks of a network are written on one line of users.conf,
+            # separated by spaces.
+            raise ValueError('Network names and nicks must not be empty nor '
+                             'contain whitespace.')
         if users.getUserFromNick(network, nick) is not None:
             raise KeyError
         if network not in self.nicks:
